@@ -48,6 +48,16 @@ type XAConn struct {
 	isConnKept         bool
 }
 
+// ResetSession is called by database/sql before it hands a pooled connection out again. A connection that keeps a
+// prepared branch for phase two cannot serve other statements (the server refuses everything but XA COMMIT / XA
+// ROLLBACK on it): it is withdrawn from the pool, phase two finds it through the resource's keeper.
+func (c *XAConn) ResetSession(ctx context.Context) error {
+	if c.isConnKept {
+		return driver.ErrBadConn
+	}
+	return c.Conn.ResetSession(ctx)
+}
+
 func (c *XAConn) PrepareContext(ctx context.Context, query string) (driver.Stmt, error) {
 	if c.createOnceTxContext(ctx) {
 		defer func() {
@@ -127,23 +137,27 @@ func (c *XAConn) BeginTx(ctx context.Context, opts driver.TxOptions) (driver.Tx,
 
 	tx, err := c.Conn.BeginTx(ctx, opts)
 	if err != nil {
+		c.autoCommit = true
 		return nil, err
 	}
 	c.tx = tx
 
 	if !c.autoCommit {
 		if c.xaActive {
+			c.autoCommit = true
 			return nil, errors.New("should NEVER happen: setAutoCommit from true to false while xa branch is active")
 		}
 
 		baseTx, ok := tx.(*Tx)
 		if !ok {
+			c.autoCommit = true
 			return nil, fmt.Errorf("start xa %s transaction failure for the tx is a wrong type", c.txCtx.XID)
 		}
 
 		c.branchRegisterTime = time.Now()
 		if err := baseTx.register(c.txCtx); err != nil {
 			c.cleanXABranchContext()
+			c.autoCommit = true
 			return nil, fmt.Errorf("failed to register xa branch %s, err:%w", c.txCtx.XID, err)
 		}
 
@@ -151,13 +165,19 @@ func (c *XAConn) BeginTx(ctx context.Context, opts driver.TxOptions) (driver.Tx,
 		c.keepIfNecessary()
 
 		if err = c.start(ctx); err != nil {
+			// no branch is open on this connection: nothing to keep it for
+			c.releaseIfNecessary()
 			c.cleanXABranchContext()
+			c.autoCommit = true
+			if reportErr := baseTx.report(false); reportErr != nil {
+				log.Errorf("failed to report xa branch %s as failed, err:%v", c.txCtx.XID, reportErr)
+			}
 			return nil, fmt.Errorf("failed to start xa branch xid:%s err:%w", c.txCtx.XID, err)
 		}
 		c.xaActive = true
 	}
 
-	return &XATx{tx: tx.(*Tx)}, nil
+	return &XATx{tx: tx.(*Tx), conn: c, ctx: ctx}, nil
 }
 
 func (c *XAConn) createOnceTxContext(ctx context.Context) bool {
@@ -182,15 +202,14 @@ func (c *XAConn) createNewTxOnExecIfNeed(ctx context.Context, f func() (types.Ex
 	)
 
 	defer func() {
-		recoverErr := recover()
-		if err != nil || recoverErr != nil {
-			log.Errorf("conn at rollback  error:%v or recoverErr:%v", err, recoverErr)
-			if c.tx != nil {
-				rollbackErr := c.tx.Rollback()
-				if rollbackErr != nil {
-					log.Errorf("conn at rollback error:%v", rollbackErr)
+		if recoverErr := recover(); recoverErr != nil {
+			log.Errorf("xa exec panic, recoverErr:%v", recoverErr)
+			if tx != nil {
+				if rollbackErr := c.Rollback(ctx); rollbackErr != nil {
+					log.Errorf("conn xa rollback error:%v", rollbackErr)
 				}
 			}
+			panic(recoverErr)
 		}
 	}()
 
@@ -205,24 +224,36 @@ func (c *XAConn) createNewTxOnExecIfNeed(ctx context.Context, f func() (types.Ex
 	// execute SQL
 	ret, err := f()
 	if err != nil {
-		// XA End & Rollback
-		if rollbackErr := c.Rollback(ctx); rollbackErr != nil {
-			log.Errorf("failed to rollback xa branch of :%s, err:%w", c.txCtx.XID, rollbackErr)
+		if tx != nil && currentAutoCommit {
+			// the statement-scoped branch ends here: XA End & Rollback, report, autocommit again
+			if rollbackErr := c.Rollback(ctx); rollbackErr != nil {
+				log.Errorf("failed to rollback xa branch of :%s, err:%v", c.txCtx.XID, rollbackErr)
+			}
+			c.reportPhaseOneFailure()
 		}
 		return nil, err
 	}
 
 	if tx != nil && currentAutoCommit {
+		// XA End & Prepare; a failure rolls the branch back and is the caller's to know
 		if err = c.Commit(ctx); err != nil {
 			log.Errorf("xa connection proxy commit failure xid:%s, err:%v", c.txCtx.XID, err)
-			// XA End & Rollback
-			if err := c.Rollback(ctx); err != nil {
-				log.Errorf("xa connection proxy rollback failure xid:%s, err:%v", c.txCtx.XID, err)
-			}
+			c.reportPhaseOneFailure()
+			return nil, err
 		}
 	}
 
 	return ret, nil
+}
+
+func (c *XAConn) reportPhaseOneFailure() {
+	baseTx, ok := c.tx.(*Tx)
+	if !ok || !baseTx.tranCtx.OpenGlobalTransaction() || !baseTx.tranCtx.IsBranchRegistered() {
+		return
+	}
+	if err := baseTx.report(false); err != nil {
+		log.Errorf("failed to report xa branch %s as failed, err:%v", c.txCtx.XID, err)
+	}
 }
 
 func (c *XAConn) keepIfNecessary() {
@@ -234,6 +265,9 @@ func (c *XAConn) keepIfNecessary() {
 }
 
 func (c *XAConn) releaseIfNecessary() {
+	if c.xaBranchXid == nil {
+		return
+	}
 	if c.ShouldBeHeld() && c.xaBranchXid.String() != "" {
 		if c.isConnKept {
 			c.res.Release(c.xaBranchXid.String())
@@ -301,21 +335,37 @@ func (c *XAConn) Rollback(ctx context.Context) error {
 		return fmt.Errorf("should NOT rollback on an inactive session")
 	}
 
+	defer func() {
+		c.cleanXABranchContext()
+		c.autoCommit = true
+	}()
 	if !c.rollBacked {
 		if c.xaResource.End(ctx, c.xaBranchXid.String(), xa.TMFail) != nil {
+			// the branch may be ended already or the connection may be gone: still try to roll it back
+			if c.XaRollback(ctx, c.xaBranchXid) != nil {
+				c.abandonConnection()
+			}
 			return c.rollbackErrorHandle()
 		}
 		if c.XaRollback(ctx, c.xaBranchXid) != nil {
-			c.cleanXABranchContext()
+			c.abandonConnection()
 			return c.rollbackErrorHandle()
 		}
-		if err := c.tx.Rollback(); err != nil {
-			c.cleanXABranchContext()
-			return fmt.Errorf("failed to report XA branch commit-failure on xid:%s err:%w", c.txCtx.XID, err)
-		}
 	}
-	c.cleanXABranchContext()
 	return nil
+}
+
+// abandonConnection closes the physical connection of a branch that could not be rolled back by command: the
+// server rolls back a branch that is not prepared when its connection goes away, and database/sql replaces the
+// connection on its next use
+func (c *XAConn) abandonConnection() {
+	if c.isConnKept && c.xaBranchXid != nil {
+		c.res.Release(c.xaBranchXid.String())
+		c.isConnKept = false
+	}
+	if err := c.Conn.Close(); err != nil {
+		log.Errorf("failed to close the connection of xa branch %s, err:%v", c.txCtx.XID, err)
+	}
 }
 
 func (c *XAConn) rollbackErrorHandle() error {
@@ -331,28 +381,35 @@ func (c *XAConn) Commit(ctx context.Context) error {
 		return fmt.Errorf("should NOT commit on an inactive session")
 	}
 
+	defer func() {
+		c.autoCommit = true
+	}()
 	now := time.Now()
-	if c.end(ctx, xa.TMSuccess) != nil {
-		return c.commitErrorHandle(ctx)
+	if err := c.end(ctx, xa.TMSuccess); err != nil {
+		return c.commitErrorHandle(ctx, err)
 	}
 
-	if c.checkTimeout(ctx, now) != nil {
-		return c.commitErrorHandle(ctx)
+	if err := c.checkTimeout(ctx, now); err != nil {
+		return c.commitErrorHandle(ctx, err)
 	}
 
-	if c.xaResource.XAPrepare(ctx, c.xaBranchXid.String()) != nil {
-		return c.commitErrorHandle(ctx)
+	if err := c.xaResource.XAPrepare(ctx, c.xaBranchXid.String()); err != nil {
+		return c.commitErrorHandle(ctx, err)
 	}
+	c.prepareTime = now
+	// phase one of this branch is over: the connection is not inside an active branch any more
+	c.xaActive = false
 	return nil
 }
 
-func (c *XAConn) commitErrorHandle(ctx context.Context) error {
-	var err error
-	if err = c.XaRollback(ctx, c.xaBranchXid); err != nil {
-		err = fmt.Errorf("failed to report XA branch commit-failure xid:%s, err:%w", c.txCtx.XID, err)
+// commitErrorHandle rolls the branch back and hands the failure of phase one to the caller
+func (c *XAConn) commitErrorHandle(ctx context.Context, cause error) error {
+	if err := c.XaRollback(ctx, c.xaBranchXid); err != nil {
+		log.Errorf("failed to rollback XA branch after commit-failure xid:%s, err:%v", c.txCtx.XID, err)
+		c.abandonConnection()
 	}
 	c.cleanXABranchContext()
-	return err
+	return fmt.Errorf("failed to prepare XA branch xid:%s, err:%w", c.txCtx.XID, cause)
 }
 
 func (c *XAConn) ShouldBeHeld() bool {
@@ -360,7 +417,8 @@ func (c *XAConn) ShouldBeHeld() bool {
 }
 
 func (c *XAConn) checkTimeout(ctx context.Context, now time.Time) error {
-	if now.Sub(c.branchRegisterTime) > xaConnTimeout {
+	// a timeout that was never configured does not limit the branch
+	if xaConnTimeout > 0 && now.Sub(c.branchRegisterTime) > xaConnTimeout {
 		c.XaRollback(ctx, c.xaBranchXid)
 		return fmt.Errorf("XA branch timeout error xid:%s", c.txCtx.XID)
 	}
@@ -384,8 +442,8 @@ func (c *XAConn) CloseForce() error {
 		return err
 	}
 	c.rollBacked = false
-	c.cleanXABranchContext()
 	c.releaseIfNecessary()
+	c.cleanXABranchContext()
 	return nil
 }
 
